@@ -182,6 +182,14 @@ func doNonMaskCt(T Tensor) interface{} {
 // Returns:A sorted sequence of slices (start index, end index).
 func (t *Dense) FlatNotMaskedContiguous() []Slice {
 	sliceList := make([]Slice, 0, 4)
+	if !t.IsMasked() {
+		// nothing is masked: one run over everything (the plain iterator of an unmasked tensor never reports an invalid
+		// element, so the loop below would start a new "run" at every element)
+		if t.Size() > 0 {
+			sliceList = append(sliceList, makeRS(0, t.Size()))
+		}
+		return sliceList
+	}
 
 	it := IteratorFromDense(t)
 
@@ -242,7 +250,7 @@ func (t *Dense) FlatNotMaskedEdges() (int, int) {
 // Returns: A pair of ints. -1 if all values are unmasked.
 func (t *Dense) FlatMaskedEdges() (int, int) {
 	if !t.IsMasked() {
-		return 0, t.Size() - 1
+		return -1, -1 // all values are unmasked
 	}
 	var start, end int
 	it := IteratorFromDense(t)
